@@ -387,8 +387,9 @@ Example C11_dump_protocol_nonvacuous :
   let stale := [("d/check_x/0.smt2", "(old)"); ("d/check_x/0.refined.smt2", "(old refined)")]%string in
   map (fun e => (ev_file e, ev_read e)) (snd (run_jobs slv rf (stale, []) jobs)) =
     [("d/check_x/0.smt2"%string, Some (query_text a));
-     ("d/check_x/0.refined.smt2"%string, Some (query_text (refine_ctx rf a)));
+     (full_name (refine_ctx rf a), Some (query_text (refine_ctx rf a)));
      ("d/check_x/0.smt2"%string, Some (query_text b));
-     ("d/check_x/0.refined.smt2"%string, Some (query_text (refine_ctx rf b)))] /\
-  query_text a <> query_text b.
-Proof. vm_compute. split; [reflexivity | discriminate]. Qed.
+     (full_name (refine_ctx rf b), Some (query_text (refine_ctx rf b)))] /\
+  full_name (refine_ctx rf a) = full_name (refine_ctx rf b) /\
+  query_text a <> query_text b /\ query_text (refine_ctx rf a) <> query_text (refine_ctx rf b).
+Proof. vm_compute. repeat split; try reflexivity; discriminate. Qed.
